@@ -220,6 +220,9 @@ def typed_values(act):
     nums = {"y": ["0", "7", "255"], "n": ["-5", "0", "300"], "u": ["0", "42", "70000"], "f": ["0.5", "-2.25", "4.5"],
             "d": ["0.5", "-2.25", "4.5"], "c": ["116", "53"]}[own]
     out = [(own, x) for x in nums]
+    if kind == ".linePos":
+        # a double given to a float coordinate: inside the float range, and 2^200 beyond it (refused)
+        out += [("d", "0.5"), ("d", "-2.25"), ("d", str(2 ** 200)), ("d", "-" + str(2 ** 200))]
     if own != "c":
         out += [("i", x) for x in ("0", "3", "9", "200", "300", "-1", "70000")]
     return out
@@ -310,7 +313,7 @@ def scripts(tier, seed, scale=1):
         for v in ("null", "nullstr", "-", hx(" "), hx("abc"), hx("0")):
             out.append(("empty:%s:%s" % (k.name, v), new + pre + ["y set 0 x:- %s" % v, "y dump 0"]))
         # reset and copy
-        out.append(("reset:%s" % k.name, new + pre + ["y reset 0", "y dump 0"]))
+        out.append(("reset:%s" % k.name, new + ["y whole 0"] + pre + ["y whole 0", "y reset 0", "y whole 0", "y dump 0"]))
         out.append(("copy:%s" % k.name, new + pre + ["y new " + k.name, "y copy 1 0", "y dump 1"] +
                     ["y set 0 %s %s" % (nm(n), hx("changed")) for n in listed[:3]] +
                     ["y set 0 %s null" % nm(n) for n in chain] + ["y dump 1", "y dump 0", "y copy 0 0", "y copy 1 1", "y reset 0", "y dump 1"]))
